@@ -221,10 +221,20 @@ def tip_arg_value(t):
     if present == "set" and len({s[0] for s in t["x"]}) == 1:
         # only numbers or only Tip members: Python itself merges the number 4 with Tip.T3 (value 4) in a mixed set
         try:
-            return set(vals)
+            fresh = set(vals)
         except TypeError:
             return vals
-    return vals
+        # the caller's one set object, emptied and refilled between the calls (a caller may keep and edit its containers)
+        _TIP_SET.clear()
+        _TIP_SET.update(fresh)
+        return _TIP_SET
+    # likewise the caller's one list object, edited in place between the calls
+    _TIP_LIST[:] = vals
+    return _TIP_LIST
+
+
+_TIP_LIST = []
+_TIP_SET = set()
 
 
 def tip_arg_log(t):
@@ -358,10 +368,12 @@ class CtorRejected(Exception):
 
 
 class Twin:
-    def __init__(self, prog):
+    def __init__(self, prog, blind=False):
         rt = robotools()
         self.rt = rt
         self.prog = prog
+        # blind: nothing is read from the labware until the last operation has returned (see execute_blind)
+        self.blind = blind
         self.unit = Fraction(prog["unit"][0], prog["unit"][1])
         self.tmp = None
         self.lws = []
@@ -382,11 +394,19 @@ class Twin:
         mv = vol_float(wlp["maxv"], self.unit)
         if float(mv).is_integer() and wlp.get("maxint", True):
             mv = int(mv)
-        self.wl = cls(max_volume=mv, auto_split=wlp.get("autosplit", True), diti_mode=wlp.get("diti", False), **args)
+        if prog["dev"] == "evo" and wlp.get("alias"):
+            # the deprecated spelling `robotools.Worklist`: an EvoWorklist that warns when it is constructed
+            import warnings
+
+            with warnings.catch_warnings():
+                warnings.simplefilter("ignore")
+                self.wl = rt.Worklist(max_volume=mv, auto_split=wlp.get("autosplit", True), diti_mode=wlp.get("diti", False), **args)
+        else:
+            self.wl = cls(max_volume=mv, auto_split=wlp.get("autosplit", True), diti_mode=wlp.get("diti", False), **args)
         self.cfg = {"maxv": wlp["maxv"], "autosplit": wlp.get("autosplit", True), "diti": wlp.get("diti", False)}
         self.prev_recs = []
-        self.prev_hist = [self._hist_copy(lw) for lw in self.lws]
-        self.fullhist = bool(prog.get("flags", {}).get("fullhist"))
+        self.prev_hist = [[] for lw in self.lws] if blind else [self._hist_copy(lw) for lw in self.lws]
+        self.fullhist = bool(prog.get("flags", {}).get("fullhist")) and not blind
         self.held = []  # arrays obtained from `volumes` after every event (they must stay snapshots)
 
     def close(self):
@@ -439,9 +459,12 @@ class Twin:
 
     def header_lw(self, k, spec):
         lw = self.lws[k]
-        comp, _ = proj_comp(lw)
-        hist = lw.history
         R, C, V = spec["rows"], spec["cols"], spec["vrows"]
+        try:
+            comp, _ = proj_comp(lw)
+        except Exception as e:  # a query that raises is garbage, not a crash of the harness
+            comp = [[[f"<raises {type(e).__name__}>", -3, 1]] for _ in range(R * C)]
+        hist = lw.history
         names = spec.get("names") or [None] * (R * C)
         # the naming rule of C05 is stated for multi-row plates, troughs and single-well labware
         named = bool(V) or R > 1 or (R == 1 and C == 1)
@@ -467,8 +490,10 @@ class Twin:
 
     # ------------------------------------------------------------------ projection after a call
     def project(self, oplabel=None):
-        post = {"vol": [], "comp": [], "hn": [], "hsame": [], "last": [], "haswv": False}
+        post = {"vol": [], "comp": [], "hn": [], "hsame": [], "last": [], "haswv": False, "obs": {"vol": True, "comp": True, "hist": True}}
         cs = True
+        if self.blind:
+            return post, cs
         # every third projection also asks every well for its composition (Labware.get_well_composition)
         self.nproj = getattr(self, "nproj", 0) + 1
         if self.nproj % 3 == 1:
@@ -478,12 +503,29 @@ class Twin:
                 wv = [None]
             if all(w is not None for w in wv):
                 post["haswv"], post["wview"] = True, wv
+        # the queries themselves must answer: one that raises is logged as unobservable (and as garbage), not crashed on
+        obs = {"vol": True, "comp": True, "hist": True}
+        post["obs"] = obs
         for k, lw in enumerate(self.lws):
-            post["vol"].append(proj_vol(lw, self.unit))
-            comp, sup = proj_comp(lw)
+            spec = self.prog["lw"][k]
+            nreal = spec["rows"] * spec["cols"]
+            try:
+                post["vol"].append(proj_vol(lw, self.unit))
+            except Exception:
+                obs["vol"] = False
+                post["vol"].append([-1] * nreal)
+            try:
+                comp, sup = proj_comp(lw)
+            except Exception as e:
+                obs["comp"] = False
+                comp, sup = [[[f"<raises {type(e).__name__}>", -3, 1]] for _ in range(nreal)], True
             cs = cs and sup
             post["comp"].append(comp)
-            hist = lw.history
+            try:
+                hist = lw.history
+            except Exception:
+                obs["hist"] = False
+                hist = []
             prev = self.prev_hist[k]
             same = 0
             for (l0, a0), (l1, a1) in zip(prev, hist):
@@ -497,7 +539,7 @@ class Twin:
                 post["last"].append(proj_entry(hist[-1][0], hist[-1][1], self.unit, oplabel))
             else:
                 post["last"].append({"h": False, "l": "", "s": [], "base": False, "num": -1})
-            self.prev_hist[k] = self._hist_copy(lw)
+            self.prev_hist[k] = [(lab, np.array(arr, copy=True)) for lab, arr in hist]
         if self.fullhist:
             post["hist"] = [[proj_entry(lab, arr, self.unit) for lab, arr in lw.history] for lw in self.lws]
             post["report"] = [lex_report(lw.report, lw.name, self.unit) for lw in self.lws]
@@ -637,7 +679,7 @@ class Twin:
                     dst_rack_id=texts["did"],
                     dst_rack_type=texts["dtype"],
                 )
-            elif name in ("save", "exit", "enter", "str", "clear"):
+            elif name in ("save", "exit", "enter", "str", "clear", "listedit"):
                 return self._file_op(op)
             elif name in ("log", "condense"):
                 lw = self.lws[op["lw"]]
@@ -1085,6 +1127,25 @@ class Twin:
                     raise RuntimeError("__enter__ did not return the worklist")
             elif name == "clear":
                 wl.clear()
+            elif name == "listedit":
+                # the caller edits the record list with the list's own operations
+                kind, i, j = op["kind"], min(op.get("i", 0), len(wl)), min(op.get("j", 0), len(wl))
+                text = op.get("text", "C;edited by hand")
+                a.update({"kind": kind, "i": i, "j": j, "rec": lexer.lex(text, True)})
+                if kind == "pop":
+                    wl.pop()
+                elif kind == "pop0":
+                    del wl[0]
+                elif kind == "reverse":
+                    wl.reverse()
+                elif kind == "insert":
+                    wl.insert(i, text)
+                elif kind == "setitem":
+                    wl[i] = text
+                elif kind == "delslice":
+                    del wl[i:j]
+                else:
+                    raise RuntimeError("unknown abstract operation listedit " + kind)
             elif name == "str":
                 import re as _re
 
@@ -1109,6 +1170,8 @@ class Twin:
             fileinfo["bytes"] = list(data)
             fileinfo["lines"] = [list(x) for x in data.split(b"\r\n")]
         post, cs = self.project(None)
+        if name == "listedit":
+            self.prev_recs = list(wl)
         recs, prefix_ok, wlen = self.new_records(True)
         return {"op": name, "a": a, "out": outcome_class(exc), "post": post, "recs": recs, "wprefix": prefix_ok,
                 "wlen": wlen, "file": fileinfo, "strlines": strcp, "cs": cs, "tiesbig": False, "hasmodel": False}
@@ -1142,6 +1205,39 @@ def _ties_big(op):
 
 
 # ----------------------------------------------------------------------------- whole programs
+BLIND_OPS = {"transfer", "distribute", "aspirate", "dispense", "add", "remove", "setconfig", "setlimits"}
+
+
+def end_state(tw):
+    """What a caller can see once a program is over: volumes, compositions, history lengths, newest entries, the worklist."""
+    post, cs = tw.project(None)
+    return {"vol": post["vol"], "comp": post["comp"], "hn": post["hn"], "last": post["last"], "wl": [str(r) for r in tw.wl], "cs": cs}
+
+
+def execute_blind(prog):
+    """The same program on fresh objects, without a single look at the labware (volumes, compositions, history, report)
+    until the last operation has returned: looking must not matter.  Returns the end state, or None when the program
+    contains operations that themselves consult the state."""
+    global SNAP
+    if any(op["op"] not in BLIND_OPS for op in prog["ops"]):
+        return None
+    SNAP = bool(prog.get("snap", False) or prog.get("millis", False))
+    try:
+        tw = Twin(prog, blind=True)
+    except CtorRejected:
+        SNAP = False
+        return None
+    try:
+        pres = prog.get("pres", [])
+        for i, op in enumerate(prog["ops"]):
+            tw.run_op(op, pres[i] if i < len(pres) else {})
+        tw.blind = False
+        return end_state(tw)
+    finally:
+        SNAP = False
+        tw.close()
+
+
 def execute(prog):
     """Run a program; returns the trace (header + events) for Trace_Twin."""
     global SNAP
@@ -1154,7 +1250,8 @@ def execute(prog):
         return {"id": prog["id"], "dev": prog["dev"], "unitc": 1, "k": 1, "pair": bool(prog.get("pair", False)), "millis": False,
                 "wl": {"maxv": 1, "maxc": 1, "autosplit": True, "diti": False}, "lw": [], "splitting": False, "ctorfail": True,
                 "ctorerror": str(e)[:300],
-                "flags": {"records": False, "robot": False, "comp": False, "norm": False, "file": False, "fullhist": False}, "events": []}
+                "flags": {"records": False, "robot": False, "comp": False, "norm": False, "file": False, "fullhist": False}, "events": [],
+                "blind": {"has": False}}
     try:
         unit = tw.unit
         flags = dict(prog.get("flags", {}))
@@ -1205,6 +1302,14 @@ def execute(prog):
             for ev in events:
                 ev["cs"] = False
         hdr["events"] = events
+        # observation must not matter: the end state of this (observed) run, to be compared with an unobserved one
+        hdr["blind"] = {"has": False}
+        if prog.get("blind") and all(op["op"] in BLIND_OPS for op in prog["ops"]):
+            seen = end_state(tw)
+            SNAP = False
+            unseen = execute_blind(prog)
+            if unseen is not None:
+                hdr["blind"] = {"has": True, "seen": seen, "unseen": unseen}
         return hdr
     finally:
         SNAP = False
